@@ -670,6 +670,16 @@ def run(ctx):
             if k:
                 known.append("sig=%s %s" % (f["sig"], k["text"]))
                 continue
+            if f["sig"] == "tunnel-eof" and "(reset:" in f["why"]:
+                # both streams arrived complete and the close WAS observed, as a TCP reset instead of a clean EOF: the
+                # kernel answers a websocket close frame that arrives after the other side has closed its socket with
+                # RST - a race of the environment under load, not reproducible on demand. Raised only if it reproduces.
+                again = run_tunnel(tun_bin, ctx["wd"], [sc], tag="tunnel-again")[0]
+                f2 = monitor_scenario(sc, again)
+                if not (f2 and f2["sig"] == "tunnel-eof"):
+                    tstats.setdefault("unreproduced", []).append(f["why"][:300])
+                    log("[C07] tunnel-eof (reset) on %s did not reproduce on a second run of the scenario" % sc["id"])
+                    continue
             violations.append({"what": "C07 tunnel monitor [%s]: %s" % (f["sig"], f["why"]), "found_input": True,
                                "replay_obj": {"property": ID, "kind": "tunnel", "signature": f["sig"], "why": f["why"],
                                               "scenario": sc, "observed": trim_tunnel(so)}})
